@@ -435,7 +435,7 @@ package framework
 // entry for the objects they look up (an `assume` is listed in the evidence), so that C13's contracts
 // do not depend on how callers carry those invariants around.
 //@ define nodeReady(n *node_info.NodeInfo, t *pod_info.PodInfo) bool = n != nil ==> node_info.nodeWF(n) && node_info.podsWF(n) && node_info.taskWF(t) && node_info.taskSeparate(n, t) && node_info.storedOK(n, t)
-//@ define jobReady(j *podgroup_info.PodGroupInfo, t *pod_info.PodInfo) bool = j != nil ==> podgroup_info.idxWF(j) && podgroup_info.allPsWF(j) && podgroup_info.allTasksOK(j) && podgroup_info.indexed(j, t) && podgroup_info.stored(j, t) && podgroup_info.accOK(j, t.ResReq, t.ResReqVector)
+//@ define jobReady(j *podgroup_info.PodGroupInfo, t *pod_info.PodInfo) bool = j != nil ==> podgroup_info.idxWF(j) && podgroup_info.allPsWF(j) && podgroup_info.allTasksOK(j) && podgroup_info.indexed(j, t) && podgroup_info.stored(j, t) && podgroup_info.accOK(j, t.ResReq, t.ResReqVector) && podgroup_info.sgName(t) in j.PodSets
 // the job's pod maps are not the node's pod map (same Go type, never shared)
 //@ define jobNodeSep(j *podgroup_info.PodGroupInfo, n *node_info.NodeInfo) bool = j != nil && n != nil ==> (forall k in j.PodSets :: j.PodSets[k].podInfos != n.PodInfos && (forall s2 in j.PodSets[k].podStatusIndex :: j.PodSets[k].podStatusIndex[s2] != n.PodInfos)) && (forall st in j.PodStatusIndex :: j.PodStatusIndex[st] != n.PodInfos)
 
@@ -516,8 +516,8 @@ package framework
 
 //@ func (*Statement).Evict
 //@   props C13 C06
-//@   requires stmtOK(s) && reclaimeeTask != nil
-//@   assume jobReady(s.ssn.ClusterInfo.PodGroupInfos[reclaimeeTask.Job], reclaimeeTask) && nodeReady(s.ssn.ClusterInfo.Nodes[reclaimeeTask.NodeName], reclaimeeTask)
+//@   requires stmtOK(s) && wfLog(s) && reclaimeeTask != nil
+//@   assume jobReady(s.ssn.ClusterInfo.PodGroupInfos[reclaimeeTask.Job], reclaimeeTask) && nodeReady(s.ssn.ClusterInfo.Nodes[reclaimeeTask.NodeName], reclaimeeTask) && jobNodeSep(s.ssn.ClusterInfo.PodGroupInfos[reclaimeeTask.Job], s.ssn.ClusterInfo.Nodes[reclaimeeTask.NodeName])
 //@   modifies *
 //@   loop 1
 //@     invariant 0 - 1 <= rangeindex && rangeindex < len(s.ssn.eventHandlers)
@@ -537,13 +537,16 @@ package framework
 //@   ensures [otherFieldsKept] reclaimeeTask.NodeName == old(reclaimeeTask.NodeName) && reclaimeeTask.GPUGroups == old(reclaimeeTask.GPUGroups) && reclaimeeTask.ResourceClaimInfo == old(reclaimeeTask.ResourceClaimInfo)
 //@   ensures [handlerPolarity] allocEvents() == old(allocEvents())
 //@   ensures [virtual] noEmission() && reversals() == old(reversals())
-//@   ensures [wf] old(wfLog(s)) ==> wfLog(s)
+//@   ensures [wfKnown] wfKnown(s)
+//@   ensures [wfRev] wfRev(s)
+//@   ensures [wfBack] wfBack(s)
+//@   ensures [wfTask] wfTask(s)
 //@ end
 
 //@ func (*Statement).Allocate
 //@   props C13 C01
-//@   requires stmtOK(s) && task != nil
-//@   assume jobReady(s.ssn.ClusterInfo.PodGroupInfos[task.Job], task) && nodeReady(s.ssn.ClusterInfo.Nodes[hostname], task)
+//@   requires stmtOK(s) && wfLog(s) && task != nil
+//@   assume jobReady(s.ssn.ClusterInfo.PodGroupInfos[task.Job], task) && nodeReady(s.ssn.ClusterInfo.Nodes[hostname], task) && jobNodeSep(s.ssn.ClusterInfo.PodGroupInfos[task.Job], s.ssn.ClusterInfo.Nodes[hostname])
 //@   modifies *
 //@   loop 1
 //@     invariant 0 - 1 <= rangeindex && rangeindex < len(s.ssn.eventHandlers)
@@ -558,7 +561,10 @@ package framework
 //@   ensures [nowAllocated] result == nil ==> task.Status == pod_status.Allocated && task.NodeName == hostname && task.IsVirtualStatus
 //@   ensures [handlerPolarity] deallocEvents() == old(deallocEvents())
 //@   ensures [virtual] noEmission() && reversals() == old(reversals())
-//@   ensures [wf] old(wfLog(s)) ==> wfLog(s)
+//@   ensures [wfKnown] wfKnown(s)
+//@   ensures [wfRev] wfRev(s)
+//@   ensures [wfBack] wfBack(s)
+//@   ensures [wfTask] wfTask(s)
 //@ end
 
 // Unevict(task) = undo the earliest still valid evict entry of that task.
@@ -599,7 +605,7 @@ package framework
 //@   props C13 C01
 //@   requires stmtOK(s) && wfLog(s) && task != nil
 //@   requires hostname in s.ssn.ClusterInfo.Nodes ==> (forall k in s.ssn.ClusterInfo.Nodes[hostname].PodInfos :: s.ssn.ClusterInfo.Nodes[hostname].PodInfos[k] != nil)
-//@   assume jobReady(s.ssn.ClusterInfo.PodGroupInfos[task.Job], task) && nodeReady(s.ssn.ClusterInfo.Nodes[hostname], task)
+//@   assume jobReady(s.ssn.ClusterInfo.PodGroupInfos[task.Job], task) && nodeReady(s.ssn.ClusterInfo.Nodes[hostname], task) && jobNodeSep(s.ssn.ClusterInfo.PodGroupInfos[task.Job], s.ssn.ClusterInfo.Nodes[hostname])
 //@   modifies *
 //@   loop 1
 //@     invariant 0 - 1 <= rangeindex && rangeindex < len(s.ssn.eventHandlers)
